@@ -137,6 +137,49 @@ func rangeDom(lo, hi uint64, signed bool) func(v *Term) *Term {
 	}
 }
 
+// runeCands lists the runes of the current rune domain inside [lo,hi] when there are few enough of them
+// (finite-domain filter, fd.go); nil otherwise.
+func runeCands(lo, hi rune) []uint64 {
+	clip := func(d [2]rune) (rune, rune) {
+		l, h := d[0], d[1]
+		if l < lo {
+			l = lo
+		}
+		if h > hi {
+			h = hi
+		}
+		return l, h
+	}
+	n := 0
+	for _, d := range domainRanges() {
+		if l, h := clip(d); l <= h {
+			n += int(h-l) + 1
+		}
+	}
+	if n == 0 || n > fdMaxCand {
+		return nil
+	}
+	out := make([]uint64, 0, n)
+	for _, d := range domainRanges() {
+		l, h := clip(d)
+		for r := l; r <= h; r++ {
+			out = append(out, uint64(uint32(r)))
+		}
+	}
+	return out
+}
+
+func intCands(lo, hi int64) []uint64 {
+	if hi < lo || hi-lo >= fdMaxCand {
+		return nil
+	}
+	out := make([]uint64, 0, hi-lo+1)
+	for v := lo; v <= hi; v++ {
+		out = append(out, uint64(v))
+	}
+	return out
+}
+
 func runeDomainTerm(v *Term, lo, hi rune) *Term {
 	c := TFalse
 	for _, d := range domainRanges() {
@@ -161,12 +204,19 @@ func init() {
 			name := varName(strArg(args[0]))
 			lo, hi := rune(0), rune(unicode.MaxRune)
 			def := domainRanges()[0][0]
+			X.candHint = runeCands(lo, hi)
 			v := X.NewVar(name, 32, uint64(def), func(v *Term) *Term { return runeDomainTerm(v, lo, hi) })
 			return sym{types.Int32, v}, true
 		},
 		"verifRuneIn": func(fr *frame, args []value) (value, bool) {
 			name := varName(strArg(args[0]))
 			lo, hi := args[1].(rune), args[2].(rune)
+			if c := intCands(int64(lo), int64(hi)); c != nil {
+				for i := range c {
+					c[i] &= 0xFFFFFFFF
+				}
+				X.candHint = c
+			}
 			v := X.NewVar(name, 32, uint64(lo), rangeDom(uint64(uint32(lo)), uint64(uint32(hi)), true))
 			return sym{types.Int32, v}, true
 		},
@@ -191,6 +241,7 @@ func init() {
 			if lo == hi {
 				return lo, true
 			}
+			X.candHint = intCands(int64(lo), int64(hi))
 			v := X.NewVar(varName(strArg(args[0])), 64, uint64(lo), rangeDom(uint64(lo), uint64(hi), true))
 			return sym{types.Int, v}, true
 		},
@@ -208,6 +259,16 @@ func init() {
 			if len(rs) == 1 && rs[0][0] == rs[0][1] {
 				return int(rs[0][0]), true // a single value: concrete
 			}
+			var cs []uint64
+			for _, r := range rs {
+				c := intCands(r[0], r[1])
+				if c == nil {
+					cs = nil
+					break
+				}
+				cs = append(cs, c...)
+			}
+			X.candHint = cs
 			v := X.NewVar(varName(strArg(args[0])), 64, uint64(rs[0][0]), func(v *Term) *Term {
 				c := TFalse
 				for _, r := range rs {
